@@ -49,6 +49,9 @@ type AScn struct {
 	// DelayBounded: every departure from the default schedule costs one deviation (with Bound 0: the default schedule
 	// only) - for requests with so many calls in flight that the free orders of their threads cannot be enumerated
 	DelayBounded bool `json:"delay_bounded,omitempty"`
+	// PartialOnFail: a failing call hands back what it had collected so far (a run with its first hop) TOGETHER with its
+	// error; it has failed all the same
+	PartialOnFail bool `json:"partial_on_fail,omitempty"`
 }
 
 type fetcher struct{ mode string }
@@ -110,6 +113,10 @@ func runA(sc *AScn, prefix []int, sig []uint32) (*vsched.Exec, *aObs) {
 		}
 		vtime.Sleep(time.Duration(sc.Rank[idx]+1) * 100 * time.Millisecond)
 		if sc.FailMask&(1<<idx) != 0 {
+			if sc.PartialOnFail {
+				return &result.TracerouteRun{Source: result.TracerouteSource{Port: uint16(1000 + idx)}, Destination: result.TracerouteDestination{IPAddress: net.ParseIP("203.0.113.9")},
+					Hops: []*result.TracerouteHop{{TTL: 1, IPAddress: net.IP{198, 51, 100, byte(idx + 1)}, RTT: 1}, {TTL: 2, IPAddress: net.ParseIP("203.0.113.9"), RTT: 99, IsDest: true}}}, o.errs[idx]
+			}
 			return nil, o.errs[idx]
 		}
 		run := &result.TracerouteRun{Source: result.TracerouteSource{Port: uint16(1000 + idx)}, Destination: result.TracerouteDestination{IPAddress: net.ParseIP("203.0.113.9")},
@@ -327,7 +334,26 @@ func manyA(tier string) []*AScn {
 	return out
 }
 
-func extraA(tier string) []*AScn { return append(cancelA(tier), manyA(tier)...) }
+// partialA: failing calls that return a partial run together with their error.
+func partialA(tier string) []*AScn {
+	var out []*AScn
+	for _, qe := range [][2]int{{1, 0}, {0, 1}, {2, 1}, {1, 2}, {3, 0}, {0, 3}} {
+		n := qe[0] + qe[1]
+		for mask := 1; mask < 1<<n; mask++ {
+			for _, rev := range []bool{false, true} {
+				sc := &AScn{Queries: qe[0], E2e: qe[1], Bound: 1, FailMask: mask, PartialOnFail: true}
+				sc.Rank = permAt(n, 0)
+				if rev {
+					sc.Rank = permAt(n, fact(n)-1)
+				}
+				out = append(out, sc)
+			}
+		}
+	}
+	return out
+}
+
+func extraA(tier string) []*AScn { return append(append(cancelA(tier), manyA(tier)...), partialA(tier)...) }
 
 func countA(tier string) int {
 	t := 0
